@@ -259,7 +259,8 @@ func c12(x *ctx) {
 	corpus := gen.Corpus(engine.RepoRoot)
 	nCorpus := 0
 	for i, p := range corpus {
-		if !thorough && i%3 != 0 {
+		// quick: a third of the corpus, plus every program that uses configured classes of a frame other than Builtin
+		if !thorough && i%3 != 0 && !strings.Contains(p.Src, "Record") && !strings.Contains(p.Src, "GPIO") && !strings.Contains(p.Src, "JS") {
 			continue
 		}
 		reopens := false
